@@ -1,23 +1,49 @@
-CLAIMED = False
-NOT_YET = "correspondence and oracle run green; theorems in progress (nothing is claimed yet)"
 _PIPE_TB = ["Go slice/index semantics as transcribed in Model/Trig.lean (every access through rd/sliceI, a Go panic is the value none)",
             "time.Time arithmetic (block time stamps are harness-chosen integers of nanoseconds)",
             "the kink-model fit of edge-multi (gonum least squares) enters the model as an oracle table of shifts in {-1,0,+1} obtained from the real zeroThreshold",
             "decimation is unreachable from any API and is not modelled"]
-CFG = dict(
-    rule="a scripted source (real AnySource) prepared by the real PrepareRun (restored or default trigger settings), configured through the real "
+_RULE = ("a scripted source (real AnySource) prepared by the real PrepareRun (restored or default trigger settings), configured through the real "
          "SourceControl.ConfigureTriggers / ConfigurePulseLengths and group-trigger requests, fed block by block through the real ProcessSegments; "
-         "1..3 channels, signed and unsigned, (npre,nsamp) from 3/4 to 16/64 (thorough: up to 100/400), streams: flat, pulses, steps, ramps, extremes around "
-         "the signed wrap, dense edges; block lengths 1,2,3, npre+-1, nsamp+-1, 2*nsamp+9..11, up to 4*nsamp or one block; all trigger kinds and "
-         "combinations incl. edge-multi (3 modes, zero-threshold on/off) and group triggers; control requests between blocks. Every captured record is "
-         "judged against the ground-truth stream the harness fed (samples, frame, time, lengths, signedness) and the whole output is compared with the Lean model. "
+         "1..3 channels, signed and unsigned, (npre,nsamp) from 3/4 to 16/64 (thorough: up to 100/400), streams: flat, pulses (instant and finite rise), steps, ramps, "
+         "extremes around the signed wrap, dense edges; block lengths 1,2,3, npre+-1, nsamp+-1, 2*nsamp+9..11, up to 4*nsamp or one block; ")
+
+CLAIMED = True
+CFG = dict(
+    rule=_RULE + "edge / level / auto triggers in all combinations; epochs started by restored settings (no reconfiguration at all), ConfigureTriggers on all or "
+         "some channels, ConfigurePulseLengths with and without change; 80% edge-rich streams, 30% starting at frame 0. The oracle is an independent scan of the "
+         "ground-truth stream for criterion-satisfying samples (soundness, edge completeness up to the dead time, level completeness within one record, "
+         "edge-only non-overlap, auto gap), evaluated on the REAL records; the whole output is also compared with the Lean model. "
          "Non-trivial = at least one record was emitted; distinct by input line.",
     nontrivial=["records"],
-    jobs=seeds(1, 3),
-    lean_files=["Trig", "Pipe", "PipeJudge", "C02", "C09"],
+    jobs=seeds(1, 4),
+    lean_files=["Trig", "Pipe", "PipeJudge", "C02", "C09", "Pipe1", "Pipe2", "Edge", "Level", "Auto", "Passes", "TrigIdx", "EdgeGlobal"],
     trusted_base=_PIPE_TB,
-    assumptions=["blocks of one run carry contiguous frame numbers (C03/C04 establish this for the real sources)"],
+    assumptions=["auto delay enters the model as an integer number of samples computed with the code's own expression",
+                 "level completeness and the auto gap are proved per block and judged across blocks only by the run-time oracle (full statements kept as Props)"],
     timeout=dict(quick=900, thorough=3600),
 )
-MANIFEST = dict(text="", note="", technique="")
-THEOREMS = []
+MANIFEST = dict(
+    text="Theorems over the transcribed trigger passes and the per-channel block loop (append -> TriggerData -> trim), for all streams, all partitions into blocks "
+         "of any lengths and all edge/level/auto settings: across blocks, every sample satisfying the edge criterion with npre samples of history in the epoch and a "
+         "complete post-trigger is a trigger or lies in the dead time (T,T+nsamp] of an emitted trigger - from the first block after a start with restored settings "
+         "and after a ConfigureTriggers request at any point (C02_edge_complete, C02_edge_complete_after_reconfigure; invariant EdgeInv: scan frontier, retained "
+         "history >= one record, hold-off hand-over); edge-only triggers are sound and never overlap (C02_edge_only_sound, C02_edge_only_no_overlap); per block: "
+         "edge/level soundness, completeness and separation, auto triggers in range. Level completeness and the auto gap across blocks are stated "
+         "(C02_level_complete_full, C02_auto_gap_full) and decided at run time by the independent-scan oracle on the real records.",
+    note="Trusted: Lean 4.33 kernel (axioms propext, Classical.choice, Quot.sound only; audited every run); the hand-written model is tied to the Go code only by "
+         "differential testing with seeded generators (not a proof). Partial: cross-block theorems cover the edge clauses; level/auto clauses are proved per block "
+         "and otherwise checked by the oracle on explored cases. Epochs started by ConfigurePulseLengths are covered by the oracle only. Two defects found by this "
+         "check were repaired in /repo (77b7098 retained history after a start with restored settings; 51926cc pseudo trigger at frame 0).",
+    technique="Lean 4 theorems (scan-loop specifications + cross-block invariant) over an executable model; independent-scan oracle and model tied to the Go code by a differential correspondence run",
+)
+THEOREMS = [
+    ("DastardV.Props.C02", "DastardV.C02.C02_edge_complete"),
+    ("DastardV.Props.C02", "DastardV.C02.C02_edge_complete_after_reconfigure"),
+    ("DastardV.Props.C02", "DastardV.C02.C02_edge_only_sound"),
+    ("DastardV.Props.C02", "DastardV.C02.C02_edge_only_no_overlap"),
+    ("DastardV.Props.C02", "DastardV.C02.C02_block_edge"),
+    ("DastardV.Props.C02", "DastardV.C02.C02_block_level"),
+    ("DastardV.Props.C02", "DastardV.C02.C02_block_auto_in_range"),
+    ("DastardV.Props.C02", "DastardV.C02.configureTrigger_epoch"),
+    ("DastardV.Lemmas.EdgeGlobal", "DastardV.Trig.stepChan_inv"),
+]
